@@ -8,7 +8,7 @@ import gen
 from codecdiff import Diff
 
 PROP = "C20"
-MODULES = ["DV.Properties.C20", "DV.Properties.C20Tables", "DV.Properties.ConfigTie"]
+MODULES = ["DV.Properties.C20", "DV.Properties.C20Tables", "DV.Properties.C20Node", "DV.Properties.ConfigTie"]
 
 QUICK_FLAGS = [0x80, 0xc0, 0xa0, 0x90, 0xb0, 0xd0, 0xe0, 0xf0, 0x00, 0x40, 0x81, 0xcf, 0xff, 0x8f]
 
